@@ -261,7 +261,7 @@ def _run(ctx):
     jobs += [refuted("PubSub_mc_strict.cfg", "action_property", "PropReplayStrict", "strict 'replayed never handled' (finite dedup ring)"),
              refuted("PubSub_mc_evrace.cfg", "invariant", "EvictedStayOut", "as-is handleSubscribe (single membership check before the lock)"),
              ("match-table", match_table),
-             gen("PubSubGen_race1.cfg", "race1"), gen("PubSubGen_hold.cfg", "hold"),
+             gen("PubSubGen_race1.cfg", "race1"), gen("PubSubGen_hold.cfg", "hold"), gen("PubSubGen_share.cfg", "share"),
              gen("PubSubGen_evrace.cfg", "evrace", subst=None if thorough else {"MaxSteps = 8": "MaxSteps = 7", "GenActs <- Rv_Acts": "GenActs <- Rvq_Acts"},
                  sample=4000 if thorough else None),
              gen("PubSubGen_resid.cfg", "resid", subst=None if thorough else {"MaxSteps = 5": "MaxSteps = 4"}),
